@@ -15,7 +15,9 @@ RULE = ("cases from one PRNG(seed): kind in cat|flip|transpose|cumsum|repeat|pad
         "(clamped slices); reduce: 2..5 tensors (list or generator) folded with operator.add, operator.mul, tn.cat(dim=d); "
         "create: ones/zeros/full/*_like, eye(n), eye(n,m), arange/linspace/logspace vs torch, gaussian sums to 1, "
         "rand/randn/rand_like/randn_like: requested shape, per-core TT/CP/Tucker ranks. Oracle: NumPy on PT.dense(). Tolerance 1e-9 "
-        "scaled max-norm (exact algebra); 1e-7 for reduce (SVD rounding at eps=0); gaussian sum 1e-5 (float32 arithmetic allowed). "
+        "scaled max-norm (exact algebra); 1e-7 for reduce (SVD rounding at eps=0); gaussian sum 1e-5; creation routines and meshgrid "
+        "(which build their values in the default dtype by design) 1e-6 under a float32 default. Failure class = (op, first matching "
+        "input predicate, kind raise|shape|value|dtype); a failure seen only under the float32 default is classed 'dtype'. "
         "distinct = (kind, format signatures, shapes, ranks, parameters); non-trivial = >1 mode or rank>1 or a factor")
 TRUSTED = ["NumPy/PyTorch reference operations on an independent decompression (core.PT.dense)",
            "float64 rounding: tolerances as stated in the rule"]
